@@ -20,7 +20,7 @@ REGISTER = True
 TECHNIQUE = ('model-based stateful property testing: Hypothesis draws a history of operations (construct / fit / recompute_edges / load / '
              'threshold and option edits / method and centring switches / attribute reads) on one Bycycle object; an interpreter applies '
              'it to the real object and to a model holding only what the user set, and after every step compares the object with the '
-             'functional API called on fresh copies of the model settings and with a freshly constructed object')
+             'functional API called on fresh copies of the model settings and with a freshly constructed object (ops include deepcopy / pickle clones, in-place edits of every settings attribute, refits of the previous recording, tables with extra columns); an enumerated grid of the shortest accepted recordings through object and function; a second machine for BycycleGroup histories')
 LEVEL_TEXT = ('Generated-history search: 640 histories of up to 14 operations (quick), 12k (thorough), over a pool of 4 signals, both '
               'burst methods and centrings, shorthand threshold names; plus BycycleGroup histories (2-D / 3-D fits, repeated fits, '
               'recompute_edges). The whole history shrinks as one value and is the replay file. Sampling, not exhaustive.')
